@@ -382,6 +382,11 @@ def run_ci(case, drv):
             py[mi[y]] = py.get(mi[y], 0) + pv / tot
         gap = max(abs(pxy.get((a, b), 0) - px[a] * py[b]) for a in px for b in py)
         exp = gap == 0
+        # the model's verdict: the joint restricted to the context (Factor.reduce), then ciHolds with nothing left to condition on
+        # (the product form P(x,y) * total = P(x) * P(y) is homogeneous, so the restricted table need not be normalised)
+        red = drv.call("f_reduce", f=p, ev=[[v, s] for v, s in zip(z, case["zstate"])])
+        if drv.call("ci_holds", p=red, x=[x], y=[y], z=[]) != exp:
+            return fail(f"MODEL ciHolds on the reduced table says {not exp}, exact gap of the conditional distribution is {gap}")
         if not exp and gap < Fraction(1, 1000):
             return skip("too close to independence for a float verdict")
         try:
